@@ -27,6 +27,10 @@ pub struct C14;
 
 type Fq = ark::Fq;
 
+thread_local! {
+    static BIT_FAULTS: RefCell<Vec<(usize, bool, bool)>> = RefCell::new(Vec::new());
+}
+
 pub const KNOWN_DEN0: &str = "C14|isqrt-site|den=0|hint=(true,y),y^2=1";
 
 #[derive(Clone, Copy, Debug, Serialize, Deserialize, PartialEq, Eq, Hash)]
@@ -270,6 +274,55 @@ fn force_values(m: &Machine) -> Option<String> {
     None
 }
 
+/// A second family of prover hints: the bit decompositions behind the sign tests. For every
+/// run of 253 consecutive boolean witnesses that compose (little-endian) to an integer w with
+/// w + q < 2^253, substitute the bits of w + q (the non-canonical decomposition of the same
+/// field element; its parity is flipped because q is odd) and ask whether the system is still
+/// satisfied. With the range check of `to_bits_le` in place it never is.
+fn bit_decomposition_faults(m: &Machine) -> Vec<(usize, bool)> {
+    let n = { m.cs.borrow().map(|c| c.witness_assignment.len()).unwrap_or(0) };
+    let vals: Vec<Fq> = m.cs.borrow().map(|c| c.witness_assignment.clone()).unwrap_or_default();
+    let is_bit = |v: &Fq| *v == Fq::ZERO || *v == Fq::ONE;
+    let mut out = Vec::new();
+    let mut i = 0;
+    while i + 253 <= n {
+        if !vals[i..i + 253].iter().all(is_bit) {
+            i += 1;
+            continue;
+        }
+        // only maximal runs aligned at their start: a decomposition allocates its 253 bits consecutively
+        if i > 0 && is_bit(&vals[i - 1]) {
+            i += 1;
+            continue;
+        }
+        let mut w = N::from(0u32);
+        for (k, b) in vals[i..i + 253].iter().enumerate() {
+            if *b == Fq::ONE {
+                w.set_bit(k as u64, true);
+            }
+        }
+        let alt = &w + &Q.m;
+        if w < Q.m && alt.bits() <= 253 {
+            {
+                let mut c = m.cs.borrow_mut().unwrap();
+                for k in 0..253 {
+                    c.witness_assignment[i + k] = if alt.bit(k as u64) { Fq::ONE } else { Fq::ZERO };
+                }
+            }
+            let sat = m.satisfied();
+            {
+                let mut c = m.cs.borrow_mut().unwrap();
+                for k in 0..253 {
+                    c.witness_assignment[i + k] = vals[i + k];
+                }
+            }
+            out.push((i, sat));
+        }
+        i += 253;
+    }
+    out
+}
+
 fn hint_case(prog: &[GOp], substs: &[Subst], ctx: &mut Ctx) -> Result<(), Failure> {
     let gadgets: Vec<String> = prog.iter().filter(|o| !matches!(o, GOp::AllocElem { .. } | GOp::AllocFq { .. })).map(|o| o.name()).collect();
     let what = format!("program[{}]", gadgets.join(","));
@@ -291,10 +344,30 @@ fn hint_case(prog: &[GOp], substs: &[Subst], ctx: &mut Ctx) -> Result<(), Failur
             if let Some(why) = &m.expect_unsat {
                 wrong = Some(format!("the native operation rejects the input ({why})"));
             }
-            Ok((m.satisfied(), wrong))
+            let sat = m.satisfied();
+            // bit-decomposition hints (only on top of otherwise honest hints)
+            if s == &Subst::honest() {
+                for (at, sat_alt) in bit_decomposition_faults(&m) {
+                    BIT_FAULTS.with(|b| b.borrow_mut().push((at, sat_alt, m.expect_unsat.is_some() || !sat)));
+                }
+            }
+            Ok((sat, wrong))
         }));
         uninstall();
         let log = log.borrow().clone();
+        let bit_faults: Vec<(usize, bool, bool)> = BIT_FAULTS.with(|b| std::mem::take(&mut *b.borrow_mut()));
+        for (at, sat_alt, was_rejected) in bit_faults {
+            ctx.sub_eval();
+            ctx.class(&format!("bit-decomposition-fault|{}", if sat_alt { "sat" } else { "unsat" }));
+            // the non-canonical decomposition flips the sign test: accepting it means a sign-dependent
+            // gadget output can be forged (and, where the honest run was rejected, that an invalid input is accepted)
+            if sat_alt {
+                ctx.report(
+                    format!("C14|{what_short}|non-canonical-bit-decomposition-accepted"),
+                    format!("{what}: replacing the 253 bit witnesses at index {at} by the bits of value + q keeps the system satisfied{}", if was_rejected { " although the honest run was rejected (native operation fails)" } else { "" }),
+                )?;
+            }
+        }
         match r {
             Ok(Ok((sat, wrong))) => {
                 if s == &Subst::honest() && !sat && wrong.is_none() {
@@ -545,7 +618,7 @@ impl Property for C14 {
          isqrt site (identity for encode, s = +-1 for decode). Substitutions through the guarded ISQRT_HINT hook at one site or at all sites: flag in \
          {honest, true, false, flipped} x y in {honest, -y, 0, +-1, +-sqrt(1/den), +-sqrt(zeta/den), y times a 2-power root of unity, random} (the \
          enumerated set contains every (flag, y) able to satisfy any single case equation; the edge list applies all 47 of them to every gadget \
-         instance). Coordinate faults through verif_from_affine_unchecked: off-curve pairs, P+T4, 4-torsion, (0,0), (x,0), (0,y), scaled valid points. \
+         instance). A second hint family needs no hook: after an honest synthesis every run of 253 boolean witnesses (a bit decomposition behind a sign test) is replaced by the bits of value + q (non-canonical decomposition, flipped parity) directly in the witness assignment. Coordinate faults through verif_from_affine_unchecked: off-curve pairs, P+T4, 4-torsion, (0,0), (x,0), (0,y), scaled valid points. \
          Oracle: satisfied => native accepts the input and every output equals the native output (for offered coordinates: they are a valid \
          representative and the returned variable denotes it). Non-trivial: a dishonest substitution or invalid coordinates on a non-constant input; \
          distinct by digest. Evidence: gadget x substitution x {sat, unsat} in `classes`, number of den = 0 sites exercised"
